@@ -232,7 +232,7 @@ def plan(tier, seed):
         for d in range(1, depth + 1):
             for seq in itertools.product(range(len(ALPHA_NAMES)), repeat=d):
                 specs.append({"kind": "exh", "start": s, "ops": [ALPHA_NAMES[i] for i in seq]})
-    nrand = 1500 if tier == "quick" else 20000
+    nrand = 1500 if tier == "quick" else 100000
     # interleave the random histories so that a soft-budget cut does not remove them wholesale
     step = max(1, len(specs) // nrand)
     out = []
